@@ -228,6 +228,9 @@ func (i *interpreter) sprintf(fr *frame, formatV value, args []value) []value {
 		}
 		sp.verb = format[k]
 		k++
+		if sp.verb == 'w' {
+			sp.verb = 'v' // Errorf's %w prints like %v
+		}
 		if sp.verb == '%' {
 			out = append(out, uint8('%'))
 			continue
